@@ -709,7 +709,46 @@ def oracle_fin_sent(case, impl):
     return hits
 
 
+def oracle_zero_window_probe(case, impl):
+    """C02: progress does not hinge on one datagram: when accepted bytes wait behind a zero peer window with nothing
+    in flight, SOME timer must be armed that will make the sender probe the window - otherwise the loss of the single
+    window-reopening ACK stalls the connection forever (the property's own example)."""
+    tr = Trace(case, impl)
+    hits = []
+    if any(l.startswith(("vs tmode", "vs chanclose")) for l in case):
+        return []
+    pending, outstanding, sent_seqs = [], {}, {}
+    for ev in tr.events:
+        if ev["op"] == "new":
+            pending, outstanding, sent_seqs = [], {}, {}
+        if ev["op"] == "inject" and "dgram" in ev:
+            pending.append(ev["dgram"])
+        if ev["op"] != "poll" or "dgrams" not in ev:
+            continue
+        for d in pending:
+            if d["type"] in (3, 4):
+                continue
+            for q in list(outstanding):
+                if _md(d["ack"], q) >= 0:
+                    del outstanding[q]
+        pending = []
+        for d in ev["dgrams"]:
+            if d["type"] == 0:
+                outstanding[d["seq"]] = d["plen"]
+                sent_seqs[d["seq"]] = d["plen"]
+        if not ev["res"].startswith("pending") or not ev["fp"].get("st", "").startswith("Established"):
+            continue
+        unsent = ev["accepted_total"] - sum(sent_seqs.values())
+        fp = ev["fp"]
+        if unsent > 0 and not outstanding and fp.get("lrw") == "0" and all(fp.get(k, "-") == "-" for k in ("t_rtx", "t_inact", "t_ack", "t_pipe", "t_syn")):
+            hits.append({"sig": {"oracle": "zero_window", "what": "no_timer_armed_while_data_waits_behind_zero_window"},
+                         "text": f"poll at t={ev['t']} ns: {unsent} accepted bytes wait behind a zero peer window, nothing is in flight and no timer is armed: if the peer's single window-reopening ACK is lost the connection never resumes (no persist timer / window probe)"})
+            break
+    return hits
+
+
 ALL = {
+    "zero_window_probe": oracle_zero_window_probe,
     "fin_sent": oracle_fin_sent,
     "nagle": oracle_nagle,
     "isn_relabel": oracle_isn_relabel,
